@@ -33,7 +33,7 @@ static Boolean verif_AddChunk(ChunkList* NChunk, LargeWord NewStart, LargeWord N
 #define LMAX 16
 static unsigned char L[LMAX]; static int Ln; static char Lmark, Ltype; static int g_stray, g_lines, g_bad_struct;
 static unsigned long g_base, g_next, g_rec_start, g_rec_len; static int g_data_lines, g_fmt_kind; /* 1 Moto, 2 Intel, 3 MOS, 4 Tek */
-static unsigned g_mos_expected_reset;
+static unsigned g_mos_expected_reset; static int g_s5_seen, g_trailers; static unsigned g_s5_val;
 static void put2(unsigned long v) { if (Ln >= 0 && Ln < LMAX) L[Ln] = (unsigned char)v; Ln++; }
 static void put4(unsigned long v) { put2(v >> 8); put2(v); }
 static unsigned nib(unsigned b) { return (b >> 4) + (b & 15); }
@@ -54,6 +54,12 @@ static int mon_fprintf(FILE* f, char const* fmt, unsigned long a0, unsigned long
     else g_stray++;
     return 0;
 }
+/* console channels are distinct objects (CBMC's stdout/stderr are unconstrained pointers that could alias the target) */
+static int g_stderr_obj, g_stdout_obj;
+#undef stderr
+#undef stdout
+#define stderr ((FILE*)&g_stderr_obj)
+#define stdout ((FILE*)&g_stdout_obj)
 #define VA5(f, fmt, a, b, c, ...) (f), (fmt), (unsigned long)(a), (unsigned long)(b), (unsigned long)(c)
 #define fprintf(...) mon_fprintf(VA5(__VA_ARGS__, 0, 0, 0, 0))
 static int mon0(void) { return 0; }
@@ -104,7 +110,9 @@ static void line_done(void) {
             int alen = 2 + (Ltype - '1'); unsigned long a = 0;
             for (i = 0; i < 4; i++) if (i < alen) a = (a << 8) | L[1 + i];
             data_bytes(a, 1 + alen, (int)cnt - alen - 1);
-        } else if (Ltype != '0' && Ltype != '5' && !(Ltype >= '7' && Ltype <= '9')) g_bad_struct++;
+        } else if (Ltype == '5') { g_s5_seen++; g_s5_val = (((unsigned)L[1]) << 8) | L[2]; if (g_data_lines != 0) g_bad_struct++; }
+        else if (Ltype >= '7' && Ltype <= '9') { g_trailers++; for (i = 1; i < LMAX; i++) if (i < Ln - 1 && L[i] != 0) g_bad_struct++; }
+        else if (Ltype != '0') g_bad_struct++;
     } else if (Lmark == ';') {                                /* MOS: ;CCAAAA data.. SSSS, 16-bit sum of count, address and data */
         for (i = 0; i < LMAX; i++) if (i < Ln - 2) sum += L[i];
         VASSERT(Ln >= 5 && ((((unsigned)L[Ln - 2]) << 8) | L[Ln - 1]) == (sum & 0xffff), "C06: MOS record checksum (16-bit sum of count, address and data bytes of this record)");
@@ -131,7 +139,7 @@ static void line_done(void) {
 #define VERIF_MAXLEN 6
 #endif
 void h_ProcessFile_lines(void) {
-    Byte cpu; unsigned long start; unsigned len; char name[2]; int i;
+    Byte cpu; unsigned long start, out0; unsigned len; char name[2]; int i;
     msg_txt[0] = 'm'; msg_txt[1] = 0; name[0] = 'f'; name[1] = 0; QuietMode = True; verif_errno = 0;
     VND(cpu, uchar); VND(start, ulong); VND(len, uint);
     VASSUME(len >= 1 && len <= VERIF_MAXLEN);
@@ -144,7 +152,10 @@ void h_ProcessFile_lines(void) {
     gs[0].len = 12 + (long)len + 2; gs[0].pos = 0; gs[0].is_open = 1; gs[0].fail = 0;
     gs[1].len = 0; gs[1].pos = 0; gs[1].is_open = 1; gs[1].fail = 0;
     TargFile = GS_FILE(1); g_open_which = 0;
-    DestFormat = VERIF_FORMAT; ForceSegment = SegNone; MultiMode = 0; RelAdr = False; Relocate = 0; Rec5 = False; SepMoto = False; AVRLen = 3;
+    DestFormat = VERIF_FORMAT; ForceSegment = SegNone; MultiMode = 0; AVRLen = 3;
+    /* -a (addresses relative to the window start), -R (relocation), Motorola S5 count records and separate S9 trailers */
+    VND(RelAdr, uchar); VASSUME(RelAdr <= 1); { long long rl; VND(rl, i64); VASSUME(rl >= 0 && rl <= 0x10000); Relocate = rl; }
+    VND(Rec5, uchar); VASSUME(Rec5 <= 1); VND(SepMoto, uchar); VASSUME(SepMoto <= 1);
 #ifdef VERIF_MINMOTO
     MinMoto = VERIF_MINMOTO;
 #else
@@ -152,19 +163,24 @@ void h_ProcessFile_lines(void) {
 #endif
     VND(LineLen, uint); VASSUME(LineLen >= 1 && LineLen <= 8);
     for (i = 0; i < SegCount; i++) { StartAdr[i] = 0; StopAdr[i] = 0xffffffffu; }
+    { unsigned ws; VND(ws, uint); VASSUME(ws <= start); StartAdr[SegCode] = ws; }          /* window start at or below the record: nothing is clipped */
+    out0 = (RelAdr ? start - StartAdr[SegCode] : start) + (unsigned long)Relocate;            /* address the first byte must decode to */
     /* addresses the format can express */
-#if VERIF_FORMAT == 2 || VERIF_FORMAT == 5 || VERIF_FORMAT == 6
-    VASSUME(start <= 0xffffu && start + len - 1 <= 0xffffu);
-#elif VERIF_FORMAT == 3
-    VASSUME(start <= 0xfffffu && start + len - 1 <= 0xfffffu);
-#else
     VASSUME(start <= 0xffffffffu && start + len - 1 <= 0xffffffffu);
+#if VERIF_FORMAT == 2 || VERIF_FORMAT == 5 || VERIF_FORMAT == 6
+    VASSUME(out0 + len - 1 <= 0xffffu);
+#elif VERIF_FORMAT == 3
+    VASSUME(out0 + len - 1 <= 0xfffffu);
+#else
+    VASSUME(out0 + len - 1 <= 0xffffffffu);
 #endif
     FormatOccured = 0; MaxMoto = 0; MaxIntel = 0; EntryAdrPresent = False;
     g_stray = g_lines = g_bad_struct = g_data_lines = 0; Lmark = 0; Ln = 0; g_base = 0;
-    g_rec_start = start; g_rec_len = len; g_next = start;
+    g_rec_start = out0; g_rec_len = len; g_next = out0; g_s5_seen = 0; g_s5_val = 0; g_trailers = 0;
     ProcessFile(name, 0);
-    VPOST(g_next == start + len, "C06: decoding the output yields every byte of the record exactly once, in address order");
+    VPOST(g_next == out0 + len, "C06: decoding the output yields every byte of the record exactly once, in address order, at its address after -a / -R");
+    VPOST(VERIF_FORMAT != 1 || (g_s5_seen == (Rec5 ? 1 : 0) && (!Rec5 || g_s5_val == (unsigned)g_data_lines)), "C06: a Motorola S5 record (when requested) carries the number of data records that follow");
+    VPOST(VERIF_FORMAT != 1 || g_trailers == (SepMoto ? 1 : 0), "C06: with separate trailers each record group ends with its S7/S8/S9 record");
     VPOST(g_stray == 0 && g_bad_struct == 0 && Lmark == 0, "C06: the output consists of complete, well-formed lines of the chosen format only");
     VPOST(g_data_lines >= 1, "C06: a non-empty record produces data lines");
     VREACH("end");
